@@ -1,5 +1,4 @@
-import CentrifugeVerif.Proofs.SubProtoInv
-import CentrifugeVerif.Model.SubProtoSpec
+import CentrifugeVerif.Proofs.SubProtoNT7
 /-!
 # C04 — publication routing matches subscription state
 
@@ -16,10 +15,16 @@ Proved here (all labels):
 * `generations_nonzero` — every `c.channels` entry carries a real generation, so the "any generation"
   value 0 of `removeSub` is never what a generation-matched removal is called with.
 
-NOT proved (stated in `settled_agreement` below as a comment): the full agreement of routing table and
-reported channels at settled states.  The bounded explorer of the driver finds no violating
-interleaving for the operation sets listed in `props/C04/corpus.ops` when the wait-gate timeout does
-not fire; with the timeout the model has violating executions (see `Props/C05.lean`).
+Proved for executions in which the 5 s unsubscribe wait gate never times out (`ReachableNT`: every
+label except `tmo`; still any number of operations, channels, interleavings and injected failures):
+* `gen_consistency` — a hub entry `(ch, g)` exists only if `c.channels[ch]` carries `g`, or a live
+  rollback / unsubscribe still owes the removal of exactly `g`;
+* `settled_agreement` — when no operation is in flight, the routing entries are exactly the reported
+  channels: every hub entry belongs to a subscribed `c.channels` entry of the same generation, every
+  `c.channels` entry is subscribed and has its hub entry (with `at_most_once_routing`: exactly one).
+
+With the timeout the agreement is not proved; `Props/C05.lean` has a checked execution in which the
+timeout lets residue survive a close (model level; the gate-controlled harness cannot force it).
 -/
 namespace CentrifugeVerif.SubProto
 
@@ -51,16 +56,46 @@ theorem closed_no_new_subscription (s s' : State) (l : Label) (hc : s.status = .
     obtain ⟨e0, h0, hs0⟩ := next_closed_reports s s' l hc hn ch e he hr
     simp [h0, hs0]
 
-/-
-`settled_agreement` (full statement, not proved):
-  Reachable s → s.settled → c04Ok s = true
-i.e. when no operation is in flight the routing entries are exactly the reported channels, one each,
-with the reported generation.
--/
+/-- `gen_consistency` (no wait-gate timeout): a hub entry `(ch, g)` exists only if `c.channels[ch]`
+carries `g`, or some live thread still owes the removal of `g` (a subscribe attempt rolling back after it
+deleted its entry, or an unsubscribe that deleted the entry and has not yet reached `removeSubscription`). -/
+theorem gen_consistency (s : State) (h : ReachableNT s) (ch : Chan) (g : Gen) (hh : aget s.hub ch = some g) :
+    (∃ e, aget s.channels ch = some e ∧ e.gen = g) ∨
+    ∃ x t, aget s.threads x = some t ∧ t.ch = ch ∧ owesP t g :=
+  (reachableNT_inv s h).l3.B ch g hh
+
+/-- `settled_agreement` (no wait-gate timeout): once every operation has returned, routing table and
+reported subscriptions agree, channel by channel and generation by generation. -/
+theorem settled_agreement (s : State) (h : ReachableNT s) (hs : s.settled) (ch : Chan) :
+    (∀ g, aget s.hub ch = some g → ∃ e, aget s.channels ch = some e ∧ e.subscribed = true ∧ e.gen = g) ∧
+    (∀ e, aget s.channels ch = some e → e.subscribed = true ∧ aget s.hub ch = some e.gen) :=
+  ⟨fun g hh => settled_hub s (reachableNT_inv s h) hs ch g hh,
+   fun e he => settled_entries s (reachableNT_inv s h) hs ch e he⟩
+
+/-- the same in terms of what the connection reports: it reports `ch` iff the hub routes `ch` to it -/
+theorem settled_reports_iff_routed (s : State) (h : ReachableNT s) (hs : s.settled) (ch : Chan) :
+    reports s ch = true ↔ (aget s.hub ch).isSome = true := by
+  obtain ⟨h1, h2⟩ := settled_agreement s h hs ch
+  unfold reports
+  constructor
+  · intro hr
+    cases he : aget s.channels ch with
+    | none => simp [he] at hr
+    | some e => rw [(h2 e he).2]; rfl
+  · intro hr
+    cases hh : aget s.hub ch with
+    | none => simp [hh] at hr
+    | some g =>
+      obtain ⟨e, he, hsb, _⟩ := h1 g hh
+      simp [he, hsb]
 
 /-! Non-vacuity: a reachable settled state with one reported channel and its routing entry. -/
 example : (run State.init [.spawn .csub 0 ⟨true, true⟩, .step 0 .ok, .step 0 .ok, .step 0 .ok, .step 0 .ok,
     .step 0 .ok, .step 0 .ok, .step 0 .ok, .step 0 .ok, .step 0 .ok, .step 0 .ok, .step 0 .ok]).map
     (fun s => (settledB s, reports s 0, aget s.hub 0, c04Ok s)) = some (true, true, some 1, true) := by decide
+
+/-- the hypotheses of `settled_agreement` are satisfiable: the run above has no timeout label -/
+example : ReachableNT ((run State.init [.spawn .csub 0 ⟨true, true⟩, .step 0 .ok, .step 0 .ok]).getD State.init) :=
+  ⟨[.spawn .csub 0 ⟨true, true⟩, .step 0 .ok, .step 0 .ok], by decide, by decide⟩
 
 end CentrifugeVerif.SubProto
